@@ -349,6 +349,80 @@ def explore(task):
     return v2x.result_of(ex, info)
 
 
+
+# ----------------------------------------------------------------------------- binding of the feed-back mode to the real API
+def conformance_task(task):
+    """The feed-back mode of the explorer emulates what RuntimeV2_x.process_events does with emitted events.  For the
+    feed-back programs every history up to `depth` (default tie-breaks) is run BOTH ways - emulation on a State, real
+    process_events on the runtime - and the emitted event types of every step must be equal."""
+    import asyncio
+
+    from vf.props import c10
+    src, evnames, internals, depth, limit = task
+    res = {"programs": 1, "histories": 0, "steps": 0, "viol": []}
+    try:
+        rt = c10._runtime(src)
+    except Exception as e:
+        res["viol"].append(("harness:conformance-program-rejected", repr(e), {"source": src}))
+        return res
+    fixed = [("ext", n, {}) for n in evnames] + [("internal", n, a) for n, a in internals]
+    loop = asyncio.new_event_loop()
+    try:
+        def real_step(state, conc, uid_n):
+            v2x.UIDS.n = uid_n
+            v2x.CHOICE.begin([])
+            ev = conc if isinstance(conc, dict) else {"type": conc.name, **conc.arguments}
+            out, st2 = loop.run_until_complete(rt.process_events([ev], state))
+            return [e["type"] for e in out], st2, v2x.UIDS.n
+
+        def emul_step(state, conc, uid_n):
+            v2x.FEED_BACK[0] = True
+            try:
+                _p, n2, _ = v2x.step(state, conc, [], uid_n)
+            finally:
+                v2x.FEED_BACK[0] = False
+            return [e["type"] for e in state.outgoing_events], n2
+
+        # start: process_events([]) starts main; the emulation starts main explicitly
+        v2x.UIDS.n = 0
+        v2x.CHOICE.begin([])
+        out_r, st_r = loop.run_until_complete(rt.process_events([], None))
+        uid_r = v2x.UIDS.n
+        st_e = v2x.init_state(src)
+        out_e, uid_e = emul_step(st_e, v2x.resolve_event(st_e, ("start_main",)), v2x.UIDS.n)
+        stack = [(st_e, uid_e, st_r, uid_r, ())]
+        while stack and res["histories"] < limit:
+            se, ue, sr, ur, hist = stack.pop()
+            if len(hist) >= depth:
+                continue
+            evs = list(fixed)
+            for k in range(min(2, len(v2x.pending_actions(se)))):
+                evs.append(("act", k, "Finished", {}))
+            for aev in evs:
+                ce, cr = v2x.resolve_event(se, aev), v2x.resolve_event(sr, aev)
+                if ce is None or cr is None:
+                    if (ce is None) != (cr is None):
+                        res["viol"].append(("harness:feed-back-emulation-differs-from-process_events:pending-actions",
+                                            f"history {hist + (aev,)}", {"source": src}))
+                    continue
+                if not isinstance(ce, dict) or not isinstance(cr, dict):
+                    continue  # internal events (StopFlow) cannot be sent through process_events as plain dicts
+                se2 = v2x.copy_state(se)
+                oe, ue2 = emul_step(se2, ce, ue)
+                sr2 = v2x.copy_state(sr)
+                orr, sr2, ur2 = real_step(sr2, cr, ur)
+                res["histories"] += 1
+                res["steps"] += 1
+                if [t for t in oe] != [t for t in orr]:
+                    res["viol"].append(("harness:feed-back-emulation-differs-from-process_events",
+                                        f"history {[a[1:3] for a in hist + (aev,)]}: emulation emits {oe}, process_events returns {orr}", {"source": src}))
+                    return res
+                stack.append((se2, ue2, sr2, ur2, hist + (aev,)))
+    finally:
+        loop.close()
+    return res
+
+
 def tasks(tier):
     out = []
     d = {"quick": (4, 5, 5, 4), "thorough": (6, 7, 7, 6)}[tier]
@@ -386,6 +460,22 @@ def run(rep, tier):
         "activators are known statically (activate statements come first in a flow)",
     ]
     run_e1(rep, me, tier, budget_s=None if tier == "quick" else 1500)
+    # binding of the feed-back emulation to the real event-processing API
+    from vf import par
+    cts = []
+    for t in tasks(tier):
+        if len(t) > 8 and t[8]:
+            cts.append((t[0], t[3], t[4], 3 if tier == "quick" else 4, 40 if tier == "quick" else 400))
+    cts = cts[:: (3 if tier == "quick" else 1)]
+    agg = {"programs": 0, "histories": 0, "steps": 0}
+    for r in par.pmap(conformance_task, cts):
+        for k in agg:
+            agg[k] += r[k]
+        for sig, what, info in r["viol"]:
+            raise RuntimeError("HARNESS-ERROR: " + sig + ": " + what + "\n" + info.get("source", ""))
+    rep.set("feed_back_emulation_programs_compared_with_process_events", agg["programs"])
+    rep.set("feed_back_emulation_steps_compared_with_process_events", agg["steps"])
+    rep.add("traces_validated_against_impl", agg["steps"])
     rep.set("rule", "non-trivial = Stop events observed + states with a live activation + states with a shared running action")
     rep.set("distinct_nontrivial", rep.cov.get("action_stops", 0))
     rep.set("evaluations", rep.cov.get("transitions", 0))
